@@ -106,6 +106,7 @@ PRIM = {
     "meth": (["def _tv_method(self, _tv_a):"], []),
     "if": (["if _tv_mode == 'on':"], []),
     "nameif": (['if __name__ == "_tv_not_main_":'], []),
+    "verboseif": (["if _tv_cfg.verbose:"], []),
     "elif": (["if _tv_mode == 'on':", "    _tv_skip()", "elif _tv_mode == 'off':"], []),
     "else": (["if _tv_mode == 'on':", "    _tv_skip()", "else:"], []),
     "for": (["for _tv_i in _tv_xs:"], []),
@@ -132,6 +133,8 @@ PY_LAYERS = {
     "InWith": ["with"], "InMatchCase": ["match", "case"],
     "InAsyncFor": ["afn", "asyncfor"], "InAsyncWith": ["afn", "asyncwith"],
 }
+# wrappers that are legitimately not neutral for one rule: applied only where a corpus file asks for them
+CORPUS_ONLY_LAYERS = {"InVerboseIf": ["verboseif"]}
 LOOP_CLASSES = ("InFor", "InWhile", "InAsyncFor", "InDoWhile", "InForElse", "InWhileElse")   # a loop statement around a fragment (body or else clause) is not neutral for loop rules
 CLASS_BODY_CLASSES = ("InClassBody", "InClassInClass")
 
@@ -160,7 +163,7 @@ TS_LAYERS = {
 
 
 def layer(name, inner, lang="py"):
-    layers, prim = (PY_LAYERS, PRIM) if lang == "py" else (TS_LAYERS, TS_PRIM)
+    layers, prim = ({**PY_LAYERS, **CORPUS_ONLY_LAYERS}, PRIM) if lang == "py" else (TS_LAYERS, TS_PRIM)
     for p in reversed(layers[name]):
         h, f = prim[p]
         inner = wrap(h, inner, f)
@@ -574,6 +577,13 @@ VALS_OTHER = ["x", "x + y", "[x]", "1", "2.5", "True", "x.name", "fmt(x)", "x + 
 INITS = ['""', "''", "[]", "{}", "set()", "0", "1.5", "None", 'f"{x}"', "x", "{1}", "True"]
 
 
+LOG_CALLS = ["logger.debug(x)", "logger.info('got %s', x)", "log.warning(x)", "self.logger.error(x)", "logging.critical(x)", "logger.trace(x)",
+             "debug(x)", "logger.log(10, x)", "y = logger.exception(x)", "fmt(logger.info(x))", "logger.debug"]
+VERBOSE_HDRS = ["if verbose:", "if verbose:", "if self.verbose:", "if opts['debug']:", 'if ctx.obj.get("verbose"):', "if cfg.get('quiet'):",
+                "if not verbose:", "if is_debug:", "if VERBOSE:", "if verbose and y:", "if opts[debug]:", "if cfg.get('debug', False):",
+                "if cfg.fetch('verbose'):", "if get('verbose'):", "if self.Verbose:", "if opts['DEBUG']:", 'if ctx.get("Is_Debug"):', "if opts[0]:", "if Is_Verbose:", "while verbose:", "if verbosity:"]
+
+
 def gen_fragment(r) -> str:
     """a small module: functions with loops, augmented assignments, prints, main blocks"""
     out = []
@@ -610,9 +620,11 @@ def _gen_block(r, depth) -> list[str]:
         return [f"{v}: str = {r.choice(INITS)}" if ann else f"{v} = {r.choice(INITS)}"]
     if k < 0.32:
         return [f"print({v})"]
-    if k < 0.40 or depth >= 3:
+    if k < 0.38:
+        return [r.choice(LOG_CALLS)]
+    if k < 0.46 or depth >= 3:
         return [f"{v} {r.choice(['+=', '+=', '+=', '-=', '*='])} {r.choice(VALS_STR + VALS_OTHER)}"]
-    hdr = r.choice(["for x in xs:", "for x in xs:", "while y:", "if y:", "try:", "with y as x:", "async_for"])
+    hdr = r.choice(["for x in xs:", "for x in xs:", "while y:", "if y:", "try:", "with y as x:", "async_for"] + [r.choice(VERBOSE_HDRS)] * 3)
     if hdr == "async_for":
         hdr = "for x, z in xs:"
     body = []
@@ -627,6 +639,8 @@ def _gen_block(r, depth) -> list[str]:
         out += ["except KeyError:", f"    {r.choice(VARS)} = ''", "finally:", "    pass"] if r.random() < 0.5 else ["except KeyError:", "    pass"]
     elif hdr == "if y:" and r.random() < 0.4:
         out += ["else:", f"    {r.choice(VARS)} = {r.choice(INITS)}"]
+    elif hdr.startswith("if ") and r.random() < 0.4:
+        out += r.choice([["else:", f"    {r.choice(LOG_CALLS)}"], ["elif debug:", f"    {r.choice(LOG_CALLS)}"], ["elif y:", "    pass", "else:", f"    {r.choice(LOG_CALLS)}"]])
     elif hdr.startswith("for") and r.random() < 0.15:
         out += ["else:", f"    {r.choice(VARS)} += 'z'"]
     return out
